@@ -88,7 +88,21 @@ def rec_c18(rng, workdir: Path, meta=None) -> dict:
             gnames = list(ev.segmentation_class_groups_names)
             agg = Panoptica_Aggregator(ev, str(out))
             reported = []
-            for s in subjects:
+            # a second session continuing the file with the SAME groups declared in another order: it may
+            # be refused; if it is accepted, every value must still come back under its own group
+            switch_at = rng.randint(1, len(subjects) - 1) if use_groups and len(names) >= 2 and len(subjects) >= 2 and rng.random() < 0.3 else None
+            written = []
+            for si, s in enumerate(subjects):
+                if switch_at is not None and si == switch_at:
+                    ev_b = make_evaluator(cfg, groups=SegmentationClassGroups(dict(reversed(list(gd.items())))), log_times=False)
+                    try:
+                        agg_b = Panoptica_Aggregator(ev_b, str(out))
+                    except AssertionError:
+                        rec["meta"]["reordered_session"] = "refused"
+                        break
+                    rec["meta"]["reordered_session"] = "accepted"
+                    ev, agg = ev_b, agg_b
+                written.append(s)
                 shape = rng.choice([(5, 5), (4, 4, 4), (8,)])
                 k = len(names) if use_groups else 3
                 x = rng.random()
@@ -104,6 +118,9 @@ def rec_c18(rng, workdir: Path, meta=None) -> dict:
                 reported.append(row)
                 rec["celltext"].append(texts)
                 agg.evaluate(pred, ref, s)
+            subjects = written
+            rec["subjects"] = [chars(x) for x in subjects]
+            rec["meta"]["subject_names"] = subjects
             rec["groups"] = [chars(g) for g in gnames]
             rec["metrics"] = [chars(k) for k in keys]
             rec["reported"] = reported
